@@ -1,39 +1,81 @@
 import SaoVerif.Spec.Inv
 /-! Executable monitors: the decidable property predicates evaluated on implementation states
-    and (pre, op, res, post) steps. Each hit is `(property id, "clause=<name> …")`. -/
+    and (pre, op, res, post) steps. Each hit is `(property id, "clause=<name> cls=<class> rec=<records> …")`.
+    State clauses are evaluated per record; a hit is a record that violates the clause in the
+    post-state but did not in the pre-state (the step that breaks it). -/
 namespace SaoVerif.Monitors
 open SaoVerif SaoVerif.Spec
 
-def chk (b : Bool) (prop clause : String) (detail : String := "") : List (String × String) :=
-  if b then [] else [(prop, s!"clause={clause} {detail}")]
-
-def checkState (e : Env) (s : State) : List (String × String) :=
-  chk (ordersListExisting s) "C13" "ordersListExisting" ++
-  chk (shardsListedByOrder s) "C13" "shardsListedByOrder" ++
-  chk (completedScheduled s) "C13" "completedScheduled" ++
-  chk (aliasesAgree s) "C13" "aliasesAgree" ++
-  chk (s.pledges.all (usedAgrees s)) "C14" "usedAgrees" ++
-  chk (s.pledges.all (shardPledgeAgrees s)) "C14" "shardPledgeAgrees" ++
-  chk ((providersOf s).all (workerAgrees s)) "C14" "workerAgrees" ++
-  chk (poolAgrees s) "C14" "poolAgrees" ++
-  chk (usedBounds s) "C07" "usedBounds" ++
-  chk (idsFresh s) "C16" "idsFresh" ++
-  chk (oneInFlight s) "C16" "oneInFlight" ++
-  chk (superInv s) "C20" "superInv" ++
-  chk (solventOrder e s) "C06" "solventOrder" ++
-  chk (solventNode e s) "C06" "solventNode"
+/-- violating records of each state clause, as printable keys -/
+def violators (e : Env) (s : State) : List (String × String × List String) :=
+  [ ("C13", "ordersListExisting",
+      s.orders.filterMap (fun o =>
+        let d := o.shards.filter (fun id => (s.getShard id).isNone)
+        if d.isEmpty then none else some s!"order{o.id}:{d}")),
+    ("C13", "shardsListedByOrder",
+      s.shards.filterMap (fun sh => match s.getOrder sh.orderId with
+        | some o => if o.shards.contains sh.id then none else some s!"shard{sh.id}"
+        | none => some s!"shard{sh.id}")),
+    ("C13", "completedScheduled",
+      s.shards.filterMap (fun sh => if sh.status ≠ ShardCompleted ||
+        ((Map.find? s.expiredShardQ (addU64 sh.createdAt sh.duration)).getD []).contains sh.id then none else some s!"shard{sh.id}")),
+    ("C13", "aliasesAgree", if aliasesAgree s then [] else ["aliases"]),
+    ("C14", "usedAgrees", s.pledges.filterMap (fun p => if usedAgrees s p then none else some s!"sp{p.creator}")),
+    ("C14", "shardPledgeAgrees", s.pledges.filterMap (fun p => if shardPledgeAgrees s p then none else
+        some s!"sp{p.creator}:{if p.totalShardPledged < sumInt ((completedShardsOf s p.creator).map (·.pledge)) then "under" else "over"}")),
+    ("C14", "workerAgrees", (providersOf s).filterMap (fun p => if workerAgrees s p then none else some s!"sp{p}")),
+    ("C14", "shardHolderPledged", s.shards.filterMap (fun sh => if sh.status ≠ ShardCompleted || (s.getPledge sh.sp).isSome then none else some s!"shard{sh.id}")),
+    ("C14", "poolAgrees", if poolAgrees s then [] else ["pool"]),
+    ("C07", "usedBounds", s.pledges.filterMap (fun p => if 0 ≤ p.usedStorage && p.usedStorage ≤ p.totalStorage then none else some s!"sp{p.creator}")),
+    ("C16", "idsFresh", if idsFresh s then [] else ["ids"]),
+    ("C16", "oneInFlight", s.metas.filterMap (fun m =>
+        let open_ := s.orders.filter (fun o => o.dataId = m.dataId && o.status ≠ OrderCompleted)
+        if (if m.status = MetaComplete then open_.isEmpty else open_.map (·.id) = [m.orderId]) then none else some s!"meta-order{m.orderId}")),
+    ("C20", "superInv", s.nodes.filterMap (fun n => if n.role = 0 || superPredicate s n then none else some s!"node{n.creator}")),
+    ("C06", "solventOrder", if solventOrder e s then [] else ["order-escrow"]),
+    ("C06", "solventNode", if solventNode e s then [] else ["node-escrow"]) ]
 
 def isBlockEnd : Op → Bool
   | .end_ => true
   | _ => false
 
+/-! ### defect classes (DESIGN §6.3): decidable predicates on (pre-state, op) naming a known-finding class -/
+
+/-- completion of a migrating shard whose source shard carries a renewal that was bought after
+    the migration started (the renewal order is not the order listing the migrating shard) -/
+def clsMigrateRenew (pre : State) : Op → Bool
+  | .complete _ prov oid _ _ _ =>
+    match pre.getOrder oid with
+    | none => false
+    | some o =>
+      match getOrderShardBySP pre o prov with
+      | none => false
+      | some sh =>
+        sh.status = ShardMigrating &&
+        (match getOrderShardBySP pre o sh.«from» with
+         | some old => old.renewInfos.any (fun ri => ri.orderId ≠ o.id && ri.orderId ≠ old.orderId)
+         | none => false)
+  | _ => false
+
+def classOf (pre : State) (op : Op) : String :=
+  if clsMigrateRenew pre op then "migrate-renew" else "none"
+
+def checkState (e : Env) (s : State) : List (String × String) :=
+  (violators e s).filterMap (fun (p, c, recs) => if recs.isEmpty then none else some (p, s!"clause={c} cls=genesis rec={recs}"))
+
 def checkStep (e : Env) (pre : State) (op : Op) (res : Res) (post : State) : List (String × String) :=
-  let _ := e; let _ := pre
+  let vpre := violators e pre
+  let vpost := violators e post
+  let cls := classOf pre op
+  let stateHits := (vpost.zip vpre).filterMap (fun ((p, c, rpost), (_, _, rpre)) =>
+    let fresh := rpost.filter (fun r => !rpre.contains r)
+    if fresh.isEmpty then none else some (p, s!"clause={c} cls={cls} rec={fresh}"))
+  stateHits ++
   -- C02: nothing may hang; blockers may not panic
   (match res with
-   | .hang => [("C02", s!"clause=hang site={match (step e pre op).1 with | .hang => "model-predicted" | _ => "unpredicted"}")]
-   | .panic => [("C02", "clause=blocker-panic")]
+   | .hang => [("C02", s!"clause=hang cls={match (step e pre op).1 with | .hang => "model-predicted" | _ => "unpredicted"}")]
+   | .panic => [("C02", s!"clause=blocker-panic cls={cls}")]
    | _ => []) ++
-  (if isBlockEnd op && res = .ok then chk (timeoutPending post) "C12" "timeoutPending" else [])
+  (if isBlockEnd op && res = .ok && !timeoutPending post then [("C12", s!"clause=timeoutPending cls={cls}")] else [])
 
 end SaoVerif.Monitors
